@@ -65,6 +65,10 @@ init_mb_mgr_sse(IMB_MGR *state)
 {
         init_mb_mgr_sse_internal(state, 1);
 
+        /* nothing was initialised: no manager, or required CPU features missing */
+        if (state == NULL || state->imb_errno == IMB_ERR_MISSING_CPUFLAGS_INIT_MGR)
+                return;
+
         if (!self_test(state))
                 imb_set_errno(state, IMB_ERR_SELFTEST);
 }
